@@ -315,6 +315,11 @@ mut("c12-force-always", "C12", "feature.go", 'force := ff[indices[0]].Key == "so
 mut("c12-no-copy", "C12", "feature.go", "\tgg := make([]Feature, len(ff))\n\tcopy(gg, ff)\n", "\tgg := ff\n", ["ONLY-LOC|gts.Repair|copy"])
 mut("c12-silent-group-key-order", "C12", "feature.go", 'key := fmt.Sprintf("%s:%v", f.Key, f.Props)', 'key := fmt.Sprintf("%v|%s", f.Props, f.Key)', silent=True)
 
+mut("c03-silent-sibling-local-rename", "C03", "location.go",
+    "\tstart, end := ambiguous.Start, ambiguous.End\n\tif (0 <= n && i <= start) || (n < 0 && i < start) {\n\t\tstart = Max(i, start+n)\n\t}\n\tif (0 <= n && i < end) || (n < 0 && i <= end) {\n\t\tend = Max(i, end+n)\n\t}\n\tif start == end {\n\t\treturn Between(start)\n\t}\n\treturn Ambiguous{start, end}",
+    "\tlo, hi := ambiguous.Start, ambiguous.End\n\tif (0 <= n && i <= lo) || (n < 0 && i < lo) {\n\t\tlo = Max(i, lo+n)\n\t}\n\tif (0 <= n && i < hi) || (n < 0 && i <= hi) {\n\t\thi = Max(i, hi+n)\n\t}\n\tif lo == hi {\n\t\treturn Between(lo)\n\t}\n\treturn Ambiguous{lo, hi}",
+    silent=True, note="renaming locals in one sibling only is not a difference")
+
 if __name__ == "__main__":
     here = os.path.dirname(os.path.abspath(__file__))
     ids = [m["id"] for m in M]
